@@ -649,6 +649,7 @@ static void print_to_mem(const char *op, cfg_t *c, cfg_opt_t *o, int indent, int
 #define LOCOPT(i) do { if (resolve(t[i]) || !loc_opt) { badloc(t[0], t[i]); return; } } while (0)
 
 static long lineno;
+static int oomhit_reported;
 
 static void run_op(char **t, int nt)
 {
@@ -1319,6 +1320,12 @@ int main(int argc, char **argv)
 		while ((tok = strtok_r(p, " ", &save)) && nt < 4199) { toks[nt++] = tok; p = NULL; }
 		if (!nt) continue;
 		run_op(toks, nt);
+		/* report during which op an injected allocation failure struck (once) */
+		if (vm_fail_func() && !oomhit_reported) {
+			oomhit_reported = 1;
+			fprintf(LOG, "{\"ev\":\"oomhit\",\"op\":\"%s\"}\n", toks[0]);
+		}
+		if (!vm_fail_func()) oomhit_reported = 0;
 	}
 	free(line);
 	fprintf(LOG, "{\"ev\":\"done\"}\n");
